@@ -1,7 +1,7 @@
 from props.common import run_bounded, verify_keys
 
 KEYS = ['parso.tree.Leaf.get_code', 'parso.tree.BaseNode.get_code', 'parso.tree.BaseNode._get_code_for_children',
-        'parso.utils.python_bytes_to_unicode']
+        'parso.utils.python_bytes_to_unicode', 'parso.python.parser.Parser.convert_leaf', 'parso.tree.Leaf.__init__']
 
 
 def run(report):
